@@ -66,11 +66,33 @@ func IsCallTo(info *types.Info, call *ast.CallExpr, ids ...string) bool {
 	}
 	id, sid := FuncID(f), ShortFuncID(f)
 	for _, want := range ids {
-		if want == id || want == sid {
+		if want == id || want == sid || SameAnchor(want, sid) {
 			return true
 		}
 	}
 	return false
+}
+
+// module function names (short form) and how many functions of a package share a base name; filled by Load.
+var (
+	modFuncNames = map[string]bool{}
+	modBaseCount = map[string]int{}
+)
+
+// SameAnchor: want names a module function that no longer exists under that exact name, and have is the only
+// function of the same package with the same base name: a function that became a method or the reverse.
+func SameAnchor(want, have string) bool {
+	if want == have {
+		return true
+	}
+	if modFuncNames[want] || !modFuncNames[have] {
+		return false
+	}
+	wp, hp := strings.Split(want, "."), strings.Split(have, ".")
+	if len(wp) < 2 || len(hp) < 2 || wp[0] != hp[0] || wp[len(wp)-1] != hp[len(hp)-1] {
+		return false
+	}
+	return modBaseCount[hp[0]+"."+hp[len(hp)-1]] == 1
 }
 
 // IsBuiltinCall reports a call to the named builtin (append, len, close, …).
@@ -484,4 +506,10 @@ func Unwrap(v ssa.Value) ssa.Value {
 			return v
 		}
 	}
+}
+
+// DerefStruct returns the struct type of t or of what t points to.
+func DerefStruct(t types.Type) (*types.Struct, bool) {
+	s := derefStruct(t)
+	return s, s != nil
 }
